@@ -101,6 +101,10 @@ func recordHistory(c *Ctx, lines []J, o *HistoryOutcome, be string) {
 		op := lines[i]["op"].(string)
 		c.Count("op:" + op)
 		c.Count("backend:" + be)
+		if r.Fired {
+			c.Count("fault-fired:" + op)
+			c.NonTrivial(fmt.Sprintf("fault|%s|%v|%d", op, lines[i]["fault"], i))
+		}
 		if strings.HasPrefix(r.Impl, "err ") {
 			c.Count("error:" + strings.TrimPrefix(r.Impl, "err "))
 			continue
